@@ -64,7 +64,7 @@ theorem routed_by_subresource (sub : Bool) (p : Patch) (orig : Obj) (env : Env) 
   unfold patchObj at hr
   rw [(finish_reqs p _).1] at hr
   have hs := patch_shape sub p orig env s r hr
-  rcases hs with ⟨hk, hp, _⟩ | ⟨hk, hsub, v, hl, _, hp⟩ | ⟨hk, t, fi, sb, hp, hsb⟩ | ⟨hk, hsub, t, v, hp⟩
+  rcases hs with ⟨hk, hp, _⟩ | ⟨hk, hsub, v, hl, hp⟩ | ⟨hk, t, fi, sb, hp, hsb⟩ | ⟨hk, hsub, t, v, hp⟩
   · refine ⟨?_, ?_, ?_, ?_⟩
     · intro _
       refine ⟨hp, ?_, ?_⟩
@@ -93,10 +93,10 @@ theorem routed_by_subresource (sub : Bool) (p : Patch) (orig : Obj) (env : Env) 
     · intro _ t' fi' sv' h; rw [hk] at h; cases h
 
 /-- Completeness: the body part is always sent first when there is one; if no request of the call
-    was refused, the status part is sent too. -/
+    was refused, the status part is sent too — whatever its value, `null` (remove the status) included. -/
 theorem merge_complete (sub : Bool) (p : Patch) (orig : Obj) (env : Env) (s : Server) :
     ((bodyPart sub p.fields).isEmpty = false → ∃ r ∈ (patchObj sub p orig env s).reqs, r.kind = .mergeBody) ∧
-    (∀ v, sub = true → lookup "status" p.fields = some v → v ≠ null →
+    (∀ v, sub = true → lookup "status" p.fields = some v →
       (∀ r ∈ (patchObj sub p orig env s).reqs, r.code = 200) →
       ∃ r ∈ (patchObj sub p orig env s).reqs, r.kind = .mergeStatus) := by
   unfold patchObj
@@ -111,7 +111,7 @@ theorem merge_complete (sub : Bool) (p : Patch) (orig : Obj) (env : Env) (s : Se
       rw [(doReq_final _ _ _ _ _).1]; simp
     obtain ⟨r, hr, hk⟩ := h1
     exact ⟨r, mem_final_of_mem (mono_stageJson sub p orig env) (mem_final_of_mem (mono_stageMergeStatus sub p env) hr), hk⟩
-  · intro v hsub hl hv hall
+  · intro v hsub hl hall
     have hg := good_stageMerge sub p env ⟨s, [], none⟩ (by intro r hr; cases hr)
     unfold stageMerge at hg
     cases hb : stageMergeBody sub p env ⟨s, [], none⟩ with
@@ -127,7 +127,6 @@ theorem merge_complete (sub : Bool) (p : Patch) (orig : Obj) (env : Env) (s : Se
       have hsp : statusPart sub p.fields = some v := by
         unfold statusPart
         rw [hsub, if_pos rfl, hl]
-        cases v <;> simp_all
       have h2 : ∃ r ∈ (stageMergeStatus sub p env st1).final.reqs, r.kind = .mergeStatus := by
         unfold stageMergeStatus
         rw [hsp]
@@ -137,19 +136,42 @@ theorem merge_complete (sub : Bool) (p : Patch) (orig : Obj) (env : Env) (s : Se
       refine ⟨r, ?_, hk⟩
       exact mem_final_of_mem (mono_stageJson sub p orig env) hr
 
-/-- …except that the removal of the whole status is dropped when the resource has the subresource
-    (`body_patch.pop('status', None)` cannot tell `None` from absent): nothing is sent, the status
-    stays; without the subresource the same patch removes it. Defect C08-F1, replayed by the check. -/
-theorem status_null_dropped_witness :
-    ∃ (orig : Obj) (s : Server), s.obj = some orig ∧ (lookup "status" orig.body).isSome = true ∧
-      (patchObj true ⟨[("status", .null)], []⟩ orig Env.quiet s).reqs.length = 0 ∧
-      ((patchObj true ⟨[("status", .null)], []⟩ orig Env.quiet s).server.obj.map
-          (fun o => (lookup "status" o.body).isSome)) = some true ∧
-      ((patchObj false ⟨[("status", .null)], []⟩ orig Env.quiet s).server.obj.map
-          (fun o => (lookup "status" o.body).isSome)) = some false :=
-  ⟨⟨1, 5, false, [], [("spec", obj []), ("status", obj [("seen", num 1)])]⟩,
-   ⟨5, 1, some ⟨1, 5, false, [], [("spec", obj []), ("status", obj [("seen", num 1)])]⟩⟩,
-   rfl, by decide, by decide, by decide, by decide⟩
+/-- The removal of the whole status (`status: null`) is delivered like any other status patch
+    (repaired defect C08-F1: `pop('status', None)` used to drop it): with the subresource it is sent to
+    `/status` as `{status: null}` unless an earlier request was refused, and the object the server
+    answers with has no status any more. -/
+theorem status_removal_delivered (p : Patch) (orig : Obj) (env : Env) (s : Server)
+    (hl : lookup "status" p.fields = some .null) :
+    ((∀ r ∈ (patchObj true p orig env s).reqs, r.code = 200) →
+      ∃ r ∈ (patchObj true p orig env s).reqs, r.kind = .mergeStatus ∧ r.payload = .merge [("status", .null)]) ∧
+    (∀ s', (step true env .mergeStatus (.merge [("status", .null)]) s').2.1.code = 200 →
+      ∃ o, (step true env .mergeStatus (.merge [("status", .null)]) s').2.2 = some o ∧ lookup "status" o.body = none) := by
+  constructor
+  · intro hall
+    obtain ⟨r, hr, hk⟩ := (merge_complete true p orig env s).2 .null rfl hl hall
+    obtain ⟨_, v, hv, hp⟩ := (routed_by_subresource true p orig env s r hr).2.1 hk
+    rw [hl] at hv
+    cases hv
+    exact ⟨r, hr, hk, hp⟩
+  · intro s' hc
+    obtain ⟨o, ho, hd, _⟩ := merge_delivered true env .mergeStatus [("status", .null)] s' (by decide)
+      (Or.inr ⟨rfl, .null, rfl⟩) hc
+    refine ⟨o, ho, ?_⟩
+    have := (hd ["status"] .null (Leaf.here (by simp [lookup]) rfl)).1 rfl
+    rw [resolve_cons_obj] at this
+    cases hx : lookup "status" o.body with
+    | none => rfl
+    | some x => rw [hx] at this; simp [resolve_nil] at this
+
+-- non-vacuity, evaluated by the model: one request to `/status`, accepted, the status is gone;
+-- without the subresource the same patch goes to the main resource and removes it too
+example :
+    let o : Obj := ⟨1, 5, false, [], [("spec", obj []), ("status", obj [("seen", num 1)])]⟩
+    let r := patchObj true ⟨[("status", .null)], []⟩ o Env.quiet ⟨5, 1, some o⟩
+    r.reqs.map (fun q => (q.kind, q.code)) = [(.mergeStatus, 200)] ∧
+    r.server.obj.map (fun x => (lookup "status" x.body).isSome) = some false ∧
+    (patchObj false ⟨[("status", .null)], []⟩ o Env.quiet ⟨5, 1, some o⟩).server.obj.map
+      (fun x => (lookup "status" x.body).isSome) = some false := by decide
 
 /-! ## transformations: atomic at a version -/
 
